@@ -1,5 +1,6 @@
 """C03 - CRPS equals its definition and its decomposition is exact."""
 import math
+import random
 from fractions import Fraction as Fr
 
 import numpy as np
@@ -18,11 +19,15 @@ NAMES = ["crps", "reliability", "resolution", "uncertainty", "potential"]
 # finite members, finite or NaN observations; plus the wrapper's two filter
 # branches "no valid row" and "row whose members are all NaN")
 
-def gen_case(rng, thorough):
+def gen_case(rng, thorough, n_fixed=None, m_fixed=None):
     nmax = 160 if thorough else 45
     mmax = 64 if thorough else 12
     n = rng.choice([1, 2, 3, 9, 11, 21, rng.randint(1, nmax), rng.randint(1, nmax)])
     m = rng.choice([1, 2, 3, rng.randint(1, mmax), rng.randint(1, mmax)])
+    if n_fixed is not None:
+        n = n_fixed
+    if m_fixed is not None:
+        m = m_fixed
     if thorough and n * m > 4000:
         m = max(1, 4000 // n)
     kind = rng.choice(["lattice", "lattice", "coarse", "gauss", "gauss", "skew", "big"])
@@ -170,7 +175,7 @@ def magnitude(rows):
 TOL = 1e-9
 
 
-def oracle(rng, case, out):
+def oracle(rng, case, out, exc=None):
     """Returns a list of (key, what).  Asserts what the property states:
     definition, the two identities, signs, uncertainty = climatological CRPS,
     the invariances, and that rows with a missing observation are ignored."""
@@ -184,7 +189,7 @@ def oracle(rng, case, out):
     S = magnitude(rows)
     if out is None:
         fails.append(("C03/crps/valid-input-rejected",
-                      f"crps raised ValueError for {len(rows)} valid forecast(s)"))
+                      f"crps raised {exc or 'ValueError'} for {len(rows)} valid forecast(s)"))
         return fails
     if S > 1e100:
         return fails          # intermediate overflow: not the property's subject
@@ -267,6 +272,483 @@ def variants(rng, case, out):
 
 
 # ----------------------------------------------------------------------------
+# stored forms of the inputs.  The property speaks of the VALUES of the observations and of
+# the members ("for any observations and ensemble forecasts with finite values"); crps takes
+# them positionally (i-th observation <-> i-th row).  The same values held with another
+# storage type, byte order, memory layout or container must give the crps of those values.
+# The result on a stored form is compared with the property's own definition (the exact
+# rational oracle applied to the float64 values the container holds), not with another run.
+
+F_DTYPES = ["f8", "f8", "f8", "f4", "f4", "f2", "g", ">f8", ">f4", "O"]
+I_DTYPES = ["i8", "i4", "i2", "i1", "u1", "u2", ">i4", ">i8", "?"]
+OBS_FORMS = ["C", "strided", "negstride", "column", "nx1", "nx1-strided", "readonly", "list", "tuple",
+             "npscalars", "series", "series", "series", "frame1", "masked"]
+OBS_FORMS_N1 = ["scalar", "npscalar", "0d", "list", "series", "C"]
+ENS_FORMS = ["C", "F", "T", "colstrided", "rowstrided", "negstride", "offset", "readonly", "broadcast",
+             "lists", "tuples", "rowarrays", "frame", "frame", "frame", "frame-mixed", "masked"]
+INDEX_KINDS = ["range", "dates", "dates-s", "dates-tz", "dates-desc", "text", "shuffled", "duplicates",
+               "offset-int", "float"]
+COLUMN_KINDS = ["range", "text", "duplicates", "shuffled", "dates"]
+
+
+def gen_recipe(rng, n):
+    """how the values of one case are stored before they are handed to crps"""
+    dts = F_DTYPES + (I_DTYPES if rng.random() < 0.5 else [])
+    shared = rng.random() < 0.12
+    rec = {"obs_dtype": rng.choice(dts), "ens_dtype": rng.choice(dts),
+           "obs_form": rng.choice(OBS_FORMS_N1 if (n == 1 and rng.random() < 0.6) else OBS_FORMS),
+           "ens_form": rng.choice(ENS_FORMS),
+           "obs_index": rng.choice(INDEX_KINDS), "ens_index": rng.choice(INDEX_KINDS),
+           "same_index": rng.random() < 0.4, "columns": rng.choice(COLUMN_KINDS),
+           "shared": (rng.choice(["one-buffer", "one-buffer", "obs-as-member"]) if shared else None),
+           "seed": rng.randrange(1 << 30)}
+    return rec
+
+
+def _cast(a, dt, k):
+    """the float64 array `a` held with dtype `dt` (integers: rint(k*a), clipped); None when the
+    type cannot hold the values (NaN in an integer type, overflow to inf)"""
+    if dt == "O":
+        b = np.empty(a.shape, dtype=object)
+        b[...] = a
+        return b
+    d = np.dtype(dt)
+    if d.kind in "iub":
+        if np.isnan(a).any() or not np.isfinite(a).all():
+            return None
+        x = np.rint(a * k)
+        if d.kind == "b":
+            return x > 0
+        info = np.iinfo(d)
+        return np.clip(x, max(info.min, -2 ** 62), min(info.max, 2 ** 62)).astype(d)
+    with np.errstate(all="ignore"):
+        b = a.astype(d)
+        if np.isinf(b.astype(np.float64)).any() and not np.isinf(a).any():
+            return None
+    return b
+
+
+def _zeros(shape, like, order="C"):
+    w = np.empty(shape, dtype=like.dtype, order=order)
+    w[...] = like.dtype.type(0) if like.dtype != object else 0.0
+    return w
+
+
+def _index(kind, n, r):
+    import pandas as pd
+    if kind == "range":
+        return None
+    if kind == "dates":
+        return pd.date_range("1999-12-25", periods=n, freq="D")
+    if kind == "dates-s":
+        return pd.date_range("1999-12-25", periods=n, freq="D", unit="s")
+    if kind == "dates-tz":
+        return pd.date_range("1999-12-25", periods=n, freq="6h", tz="Australia/Sydney")
+    if kind == "dates-desc":
+        return pd.date_range("1999-12-25", periods=n, freq="D")[::-1]
+    if kind == "text":
+        return ["s%03d" % k for k in r.sample(range(n), n)]
+    if kind == "shuffled":
+        return r.sample(range(n), n)
+    if kind == "duplicates":
+        return [r.randrange(max(1, n // 2)) for _ in range(n)]
+    if kind == "offset-int":
+        return list(range(100, 100 + n))
+    return [k + 0.5 for k in range(n)]
+
+
+def _obs_form(b, form, r, index):
+    """the 1-d typed array `b` in the form `form`; None when the form does not apply"""
+    import pandas as pd
+    n = b.shape[0]
+    if form == "C":
+        return b.copy()
+    if form == "strided":              # every other element of a longer array
+        w = _zeros(2 * n, b)
+        w[::2] = b
+        return w[::2]
+    if form == "negstride":            # stored backwards
+        return b[::-1].copy()[::-1]
+    if form == "column":               # a column of a row-major table
+        w = _zeros((n, 3), b)
+        j = r.randrange(3)
+        w[:, j] = b
+        return w[:, j]
+    if form == "nx1":                  # the documented [n,1] form
+        return b.copy().reshape(-1, 1) if n >= 2 else None
+    if form == "nx1-strided":          # [n,1] slice of a wider table
+        if n < 2:
+            return None
+        w = _zeros((n, 3), b)
+        j = r.randrange(3)
+        w[:, j] = b
+        return w[:, j:j + 1]
+    if form == "readonly":
+        c = b.copy()
+        c.flags.writeable = False
+        return c
+    if form == "scalar":               # Python scalar
+        return b[0].item() if (n == 1 and b.dtype != object) else None
+    if form == "npscalar":
+        return b[0] if n == 1 else None
+    if form == "0d":
+        return np.array(b[0], dtype=b.dtype) if n == 1 else None
+    if form == "list":
+        return b.tolist()
+    if form == "tuple":
+        return tuple(b.tolist())
+    if form == "npscalars":
+        return list(b)
+    if form == "series":
+        return pd.Series(b.copy(), index=index, name=r.choice([None, "obs", 0]))
+    if form == "frame1":               # single-column table ([n,1])
+        return pd.DataFrame({"obs": b.copy()}, index=index) if n >= 2 else None
+    if form == "masked":               # masked array, nothing masked
+        return np.ma.array(b.copy()) if b.dtype != object else None
+    return None
+
+
+def _ens_form(b, form, r, index, columns):
+    import pandas as pd
+    n, m = b.shape
+    if form == "C":
+        return b.copy()
+    if form == "F":
+        return np.asfortranarray(b)
+    if form == "T":                    # transposed view of a members x forecasts array
+        return np.ascontiguousarray(b.T).T
+    if form == "colstrided":           # every other column of a wider array
+        w = _zeros((n, 2 * m), b)
+        w[:, ::2] = b
+        return w[:, ::2]
+    if form == "rowstrided":
+        w = _zeros((2 * n, m), b)
+        w[::2, :] = b
+        return w[::2, :]
+    if form == "negstride":
+        return b[::-1, ::-1].copy()[::-1, ::-1]
+    if form == "offset":               # window of a larger table
+        w = _zeros((n + 2, m + 3), b, order=r.choice("CF"))
+        w[1:n + 1, 2:m + 2] = b
+        return w[1:n + 1, 2:m + 2]
+    if form == "readonly":
+        c = b.copy()
+        c.flags.writeable = False
+        return c
+    if form == "broadcast":            # stride-0 view of one forecast / of one member
+        if b.dtype == object:
+            return None
+        f8 = b.astype(np.float64)
+        if n >= 2 and all(np.array_equal(f8[0], f8[i], equal_nan=True) for i in range(1, n)):
+            return np.broadcast_to(b[0].copy(), (n, m))
+        if m >= 2 and all(np.array_equal(f8[:, 0], f8[:, j], equal_nan=True) for j in range(1, m)):
+            return np.broadcast_to(b[:, :1].copy(), (n, m))
+        return None
+    if form == "lists":
+        return b.tolist()
+    if form == "tuples":
+        return tuple(tuple(row) for row in b.tolist())
+    if form == "rowarrays":
+        return [b[i].copy() for i in range(n)]
+    if form == "frame":
+        return pd.DataFrame(b.copy(), index=index, columns=columns)
+    if form == "masked":
+        return np.ma.array(b.copy()) if b.dtype != object else None
+    return None
+
+
+def build_stored(recipe, obs, ens):
+    """-> (obs object, ens object, obs values, ens values, description of what was built).
+    The values are the float64 numbers the two objects hold (after the storage type)."""
+    import pandas as pd
+    r = random.Random(recipe["seed"])
+    n = len(obs)
+    ao = np.array(obs, dtype=np.float64)
+    ae = np.array(ens, dtype=np.float64).reshape(n, -1)
+    m = ae.shape[1]
+    fin = [abs(v) for v in ao.tolist() + ae.ravel().tolist() if math.isfinite(v)]
+    S = max(fin) if fin else 0.0
+    k = 1.0 if (S >= 8 or S == 0 or S < 1e-200) else 8.0 / S
+    odt, edt = recipe["obs_dtype"], recipe["ens_dtype"]
+    shared = recipe.get("shared")
+    if shared:
+        odt = edt
+    bo, be = _cast(ao, odt, k), _cast(ae, edt, k)
+    if bo is None or be is None:       # same unit for both
+        odt = edt = "f8"
+        bo, be = ao.copy(), ae.copy()
+    oi = _index(recipe["obs_index"], n, r)
+    ei = oi if recipe["same_index"] else _index(recipe["ens_index"], n, r)
+    cols = _index(recipe["columns"], m, r)
+    desc = {"obs_dtype": odt, "ens_dtype": edt}
+    if shared == "obs-as-member":      # the single member IS the observation (same buffer)
+        o = bo.copy()
+        e = o.reshape(n, 1)
+        desc.update(shared=shared, obs_form="C", ens_form="view of obs")
+        vo = np.asarray(o).astype(np.float64).tolist()
+        return o, e, vo, [[y] for y in vo], desc
+    if shared:                          # observation column and members in one table
+        data = np.empty((n, m + 1), dtype=be.dtype, order=r.choice("CF"))
+        j = r.choice([0, m])
+        data[:, j] = bo
+        e = data[:, 1:] if j == 0 else data[:, :m]
+        e[...] = be
+        o = data[:, j]
+        desc.update(shared=shared, obs_form=f"column {j} of the table", ens_form="other columns",
+                    order="F" if data.flags.f_contiguous and not data.flags.c_contiguous else "C")
+    elif recipe["ens_form"] == "frame-mixed":      # columns of different types
+        cs = []
+        for jj in range(m):
+            c = _cast(ae[:, jj], r.choice(["f8", "f4", "i4", "i2", "?"]), k)
+            cs.append(ae[:, jj].copy() if c is None else c)
+        e = pd.DataFrame({jj: c for jj, c in enumerate(cs)}, index=ei)
+        be = np.column_stack([c.astype(np.float64) for c in cs]).reshape(n, m)
+        desc.update(ens_form="frame-mixed", ens_dtype=[str(c.dtype) for c in cs], ens_index=recipe["ens_index"])
+        o = None
+    else:
+        e = _ens_form(be, recipe["ens_form"], r, ei, cols)
+        desc.update(ens_form=recipe["ens_form"] if e is not None else "C")
+        if e is None:
+            e = be.copy()
+        if desc["ens_form"] == "frame":
+            desc.update(ens_index="same as obs" if recipe["same_index"] else recipe["ens_index"],
+                        columns=recipe["columns"])
+        o = None
+    if o is None:
+        o = _obs_form(bo, recipe["obs_form"], r, oi)
+        desc.update(obs_form=recipe["obs_form"] if o is not None else "C")
+        if o is None:
+            o = bo.copy()
+        if desc["obs_form"] in ("series", "frame1"):
+            desc.update(obs_index=recipe["obs_index"])
+    vo = np.asarray(bo).astype(np.float64).tolist()
+    ve = np.asarray(be).astype(np.float64).reshape(n, m).tolist()
+    return o, e, vo, ve, desc
+
+
+def call_impl(o, e):
+    """crps on the objects as they are -> (decomposition Series, table, None) or (None, None, exception text)"""
+    from hydrodiy.stat import metrics
+    try:
+        with np.errstate(all="ignore"):
+            dec, tab = metrics.crps(o, e)
+    except Exception as ex:      # noqa: BLE001
+        return None, None, f"{type(ex).__name__}: {str(ex)[:120]}"
+    return dec, tab, None
+
+
+def as_out(dec, tab):
+    d = [float(x) for x in np.asarray(dec.values, dtype=np.float64)]
+    t = [[float(x) for x in row] for row in np.asarray(tab.values, dtype=np.float64)]
+    return d, t
+
+
+def stored_form_check(ctx, rng, recipe, obs, ens):
+    """one case handed over in a stored form; returns True when a failure was reported"""
+    o, e, vo, ve, desc = build_stored(recipe, obs, ens)
+    cm.mark({"call": "metrics.crps (stored form)", "obs": obs, "ens": ens, "recipe": recipe})
+    dec, tab, exc = call_impl(o, e)
+    out = None if exc else as_out(dec, tab)
+    ctx.count(("stored", desc.get("obs_form"), desc.get("ens_form"), str(desc.get("obs_dtype")),
+               str(desc.get("ens_dtype")) if not isinstance(desc.get("ens_dtype"), list) else "mixed"))
+    bad = False
+    for key, what in oracle(rng, {"obs": vo, "ens": ve, "tag": "stored-form"}, out, exc):
+        bad = True
+        ctx.failure(key.replace("C03/crps/", "C03/crps/stored-form/"),
+                    {"obs": obs, "ens": ens, "stored_form": recipe, "built": desc,
+                     "values_obs": vo, "values_ens": ve,
+                     "input_class": "same values, other storage type / memory layout / container",
+                     "output": None if out is None else dict(zip(NAMES, out[0])), "exception": exc},
+                    f"inputs stored as {desc}: {what}")
+    return bad
+
+
+# ----------------------------------------------------------------------------
+# sessions: the same input objects and the module used over a sequence of calls.  After every
+# call the result must be the crps of the values the objects hold AT THAT MOMENT (definition,
+# identities, signs: the same oracle), and a result returned earlier must still be what it was.
+
+CONTAINERS = ["array", "array", "arrayF", "f4", "pandas", "pandas", "shared", "lists"]
+
+
+def gen_session(rng, thorough):
+    m = rng.choice([1, 2, 3, 3, rng.randint(1, 8)])
+    nslots = rng.choice([1, 2, 2, 3])
+    steps, shape = [], {}
+    for s in range(nslots):
+        n = rng.choice([1, 2, 3, 5, rng.randint(1, 12)])
+        ms = m if rng.random() < 0.8 else rng.randint(1, 8)
+        c = gen_case(rng, False, n, ms)
+        steps.append({"op": "new", "slot": s, "obs": c["obs"], "ens": c["ens"],
+                      "container": rng.choice(CONTAINERS)})
+        shape[s] = (n, ms)
+        steps.append({"op": "call", "slot": s})
+    for _ in range(rng.randint(3, 16 if thorough else 8)):
+        s = rng.randrange(nslots)
+        n, ms = shape[s]
+        x = rng.random()
+        if x < 0.3:
+            steps.append({"op": "call", "slot": s})
+        elif x < 0.38:
+            steps.append({"op": "pit", "slot": s})
+        else:
+            how = rng.choice(["all", "all", "obs", "ens", "nan", "poke", "shift", "sortrows"])
+            st = {"op": "write", "slot": s, "how": how}
+            if how in ("all", "obs", "ens"):
+                c = gen_case(rng, False, n, ms)
+                st["obs"], st["ens"] = c["obs"], c["ens"]
+            elif how == "nan":
+                st["i"] = rng.randrange(n)
+            elif how == "poke":
+                st["i"], st["j"], st["v"] = rng.randrange(n), rng.randrange(-1, ms), rng.randint(-8, 8) / 4.0
+            elif how == "shift":
+                st["c"] = rng.choice([1.0, -3.5, 1024.0])
+            steps.append(st)
+            if nslots > 1 and rng.random() < 0.4:      # another object in between
+                steps.append({"op": "call", "slot": rng.choice([t for t in range(nslots) if t != s])})
+            steps.append({"op": "call", "slot": s})
+    for s in rng.sample(range(nslots), nslots):
+        steps.append({"op": "call", "slot": s})
+    return steps
+
+
+def _new_slot(st):
+    import pandas as pd
+    n = len(st["obs"])
+    ao = np.array(st["obs"], dtype=np.float64)
+    ae = np.array(st["ens"], dtype=np.float64).reshape(n, -1)
+    c = st["container"]
+    if c == "arrayF":
+        return ao, np.asfortranarray(ae)
+    if c == "f4":
+        with np.errstate(all="ignore"):
+            o4, e4 = ao.astype(np.float32), ae.astype(np.float32)
+        if np.isinf(o4).any() or np.isinf(e4).any():
+            return ao, ae
+        return o4, e4
+    if c == "pandas":
+        idx = pd.date_range("2001-03-01", periods=n, freq="D")
+        return pd.Series(ao, index=idx), pd.DataFrame(ae, index=idx)
+    if c == "shared":
+        data = np.empty((n, ae.shape[1] + 1))
+        data[:, 0] = ao
+        data[:, 1:] = ae
+        return data[:, 0], data[:, 1:]
+    if c == "lists":
+        return ao.tolist(), ae.tolist()
+    return ao, ae
+
+
+def _store(o, e, new_obs, new_ens):
+    """write the values into the SAME objects (None: leave as is)"""
+    import pandas as pd
+    if new_obs is not None:
+        if isinstance(o, pd.Series):
+            o.iloc[:] = new_obs
+        else:
+            o[:] = new_obs
+    if new_ens is not None:
+        if isinstance(e, pd.DataFrame):
+            e.iloc[:, :] = np.array(new_ens, dtype=np.float64)
+        elif isinstance(e, list):
+            for row, new in zip(e, new_ens):
+                row[:] = new
+        else:
+            e[:, :] = new_ens
+    return None
+
+
+def _held_values(o, e):
+    n = len(o)
+    vo = np.array(o, dtype=np.float64).reshape(n).tolist()
+    ve = np.array(e, dtype=np.float64).reshape(n, -1).tolist()
+    return vo, ve
+
+
+def run_session(ctx, rng, steps):
+    """returns True when a failure was reported"""
+    from hydrodiy.stat import metrics
+    cm.mark({"call": "metrics.crps (session)", "steps": steps})
+    slots, shadow, kept = {}, {}, []
+    bad = False
+    for si, st in enumerate(steps):
+        s = st["slot"]
+        if st["op"] == "new":
+            slots[s] = _new_slot(st)
+            shadow[s] = _held_values(*slots[s])
+            continue
+        o, e = slots[s]
+        if st["op"] == "pit":          # another entry point sharing the input checks
+            try:
+                with np.errstate(all="ignore"):
+                    metrics.pit(o, e)
+            except Exception:      # noqa: BLE001
+                pass
+            continue
+        if st["op"] == "write":
+            vo, ve = shadow[s]
+            how = st["how"]
+            if how == "all":
+                _store(o, e, st["obs"], st["ens"])
+            elif how == "obs":
+                _store(o, e, st["obs"], None)
+            elif how == "ens":
+                _store(o, e, None, st["ens"])
+            elif how == "nan":
+                vo = list(vo)
+                vo[st["i"]] = NAN
+                _store(o, e, vo, None)
+            elif how == "poke":
+                if st["j"] < 0:
+                    vo = list(vo)
+                    vo[st["i"]] = st["v"]
+                    _store(o, e, vo, None)
+                else:
+                    ve = [list(r) for r in ve]
+                    ve[st["i"]][st["j"]] = st["v"]
+                    _store(o, e, None, ve)
+            elif how == "shift":
+                _store(o, e, [y + st["c"] for y in vo], [[x + st["c"] for x in r] for r in ve])
+            elif how == "sortrows":
+                if isinstance(e, np.ndarray):
+                    e.sort(axis=1)
+                else:
+                    _store(o, e, None, [sorted(r) for r in ve])
+            shadow[s] = _held_values(o, e)
+            continue
+        # a call
+        vo, ve = shadow[s]
+        dec, tab, exc = call_impl(o, e)
+        ctx.count()
+        out = None if exc else as_out(dec, tab)
+        base = {"session": steps, "failed_at_step": si, "values_obs": vo, "values_ens": ve,
+                "input_class": "one module, the same input objects over a sequence of calls and in-place changes",
+                "output": None if out is None else dict(zip(NAMES, out[0])), "exception": exc}
+        for key, what in oracle(rng, {"obs": vo, "ens": ve, "tag": "session"}, out, exc):
+            bad = True
+            ctx.failure(key.replace("C03/crps/", "C03/crps/session/"), base,
+                        f"step {si} of a session ({st}, after {[x['op'] + ':' + str(x.get('how', x['slot'])) for x in steps[max(0, si - 3):si]]}) "
+                        f"on inputs now holding obs={vo[:4]}.. ens={ve[:2]}..: {what}")
+        # results returned earlier still are what they were
+        for sj, d0, t0, dsnap, tsnap in kept:
+            dnow = np.asarray(d0.values, dtype=np.float64)
+            tnow = np.asarray(t0.values, dtype=np.float64)
+            if not (np.array_equal(dnow, dsnap, equal_nan=True) and np.array_equal(tnow, tsnap, equal_nan=True)):
+                bad = True
+                ctx.failure("C03/crps/session/returned-result-changed-later",
+                            dict(base, returned_at_step=sj, decomposition_then=dsnap.tolist(),
+                                 decomposition_now=dnow.tolist()),
+                            f"the result returned at step {sj} of a session read {dict(zip(NAMES, dsnap.tolist()))} "
+                            f"when returned and reads {dict(zip(NAMES, dnow.tolist()))} after the call of step {si}")
+                kept = [k for k in kept if k[0] != sj]
+                break
+        if out is not None:
+            kept.append((si, dec, tab, np.array(dec.values, dtype=np.float64, copy=True),
+                         np.array(tab.values, dtype=np.float64, copy=True)))
+    return bad
+
+
+# ----------------------------------------------------------------------------
 
 def signature(case, out):
     n, m = len(case["obs"]), len(case["ens"][0])
@@ -282,7 +764,20 @@ def run(ctx):
                 "or above its whole ensemble, constant ensembles, observation equal to a member, identical "
                 "forecasts, pre-sorted members x NaN observations (some/all) and all-NaN member rows x observations "
                 "passed as [n] or [n,1] array; "
-                "non-trivial = distinct (shape+missing tag, value kind, n class, m class, error) signature")
+                "every case again in a stored form: storage type float64/32/16/longdouble/object, big-endian, "
+                "(values rounded to) int8..int64/uint8/uint16/bool x observations as contiguous / strided / reversed "
+                "/ table-column view, [n,1] (also strided), read-only, Python or numpy scalar and 0-d (n=1), list, "
+                "tuple, Series (index: range, dates ns/s/tz/descending, text, shuffled, duplicates, offset, float), "
+                "one-column frame, masked array without mask x ensemble as C / Fortran / transposed / row- or "
+                "column-strided / reversed / window of a larger table / read-only / stride-0 broadcast / nested "
+                "lists / tuples / list of rows / DataFrame (own or the observations' index, column labels) / frame "
+                "with columns of different types / masked x observation and members views of one buffer; "
+                "sessions: 1-3 pairs of input objects (arrays C/F/float32, Series+DataFrame, views of one table, "
+                "lists), calls interleaved with in-place changes of the same objects (all / observations / members "
+                "rewritten, one value, NaN observation, shift, rows sorted), calls of pit and of other pairs in "
+                "between, results kept and re-read after later calls; "
+                "non-trivial = distinct (shape+missing tag, value kind, n class, m class, error) signature or "
+                "(stored form, storage types) signature")
     ctx.trusted = cm.STD_TRUST + [
         "glibc qsort and the model's insertion sort give the same value sequence on NaN-free data",
         "pow(x,2) == x*x in binary64 (gcc folding / glibc pow)"]
@@ -290,7 +785,10 @@ def run(ctx):
         "binary64 results within 1e-9*max|value| of the exact rational definition, identities and "
         "invariances - tested on the implementation with an exact rational oracle",
         "sign of reliability/potential/uncertainty in binary64 (proved over the reals; tested strictly in binary64)",
-        "Python wrapper glue (atleast_1d/astype/squeeze, Series/DataFrame labels read by name)"]
+        "Python wrapper glue (atleast_1d/astype/squeeze, Series/DataFrame labels read by name)",
+        "independence of the stored form of the inputs (storage type, layout, container, index) and of earlier "
+        "calls / in-place changes of the same objects; results returned earlier do not change - tested with the "
+        "exact rational oracle on the values held"]
     proved = cm.prove_with_kernels(ctx, ["c_crps"])
     cm.use_impl()
     rng = ctx.rng
@@ -379,6 +877,28 @@ def run(ctx):
                             f"the decomposition {what}")
     ctx.notes["oracle_cases"] = len(cases)
     ctx.notes["metamorphic_variants"] = nvar
+
+    # the same cases handed over in other stored forms (oracle: the definition on the held values)
+    nstored = 0
+    if isinstance(rp, dict) and isinstance(rp.get("replay", rp), dict):
+        r = rp.get("replay", rp)
+        if "stored_form" in r and "obs" in r and "ens" in r:
+            nstored += 1
+            stored_form_check(ctx, rng, r["stored_form"], [float(x) for x in r["obs"]],
+                              [[float(x) for x in e] for e in r["ens"]])
+        if "session" in r:
+            run_session(ctx, rng, r["session"])
+    stride = 3 if ctx.thorough else 1
+    for i in range(0, len(cases), stride):
+        nstored += 1
+        if stored_form_check(ctx, rng, gen_recipe(rng, len(cases[i]["obs"])), cases[i]["obs"], cases[i]["ens"]):
+            orc_fail.add(i)
+    ctx.notes["stored_form_cases"] = nstored
+    # sessions: the same objects / the module over sequences of calls and in-place changes
+    nsess = ctx.scale(150, 1200)
+    for _ in range(nsess):
+        run_session(ctx, rng, gen_session(rng, ctx.thorough))
+    ctx.notes["sessions"] = nsess
     cm.settle(ctx, proved, bad, failed, orc_fail,
               lambda i: {"obs": cases[i]["obs"], "ens": cases[i]["ens"],
                          "impl_output": outs[i], "model": "Hy.Model.Crps.cr_ok"},
